@@ -68,6 +68,27 @@ def replay_adverbs(inputs, obl):
         got = k(f"{ops}{l}")
         if not eq(got, acc if ops[1] == '/' else scan):
             problems.append(f"{ops}{l} -> {got!r}")
+    # string operands: the verb sees Klong characters; expansions written with character literals
+    k2 = KlongInterpreter()
+    k2('t::{(#x)-#y};p::{x,y};c::{x}')
+    for prog, expansion in (("t:'\"ab\"", "(t(0ca;0cb)),[]"), ("p:'\"abc\"", "(,p(0ca;0cb)),,p(0cb;0cc)"), ("c'\"ab\"", "(c(0ca)),c(0cb)"),
+                            ("\"ab\"p'\"cd\"", "(,p(0ca;0cc)),,p(0cb;0cd)")):
+        try:
+            got, want = k2(prog), k2(expansion)
+            if not eq(got, want) and str(got) != str(want):
+                problems.append(f"{prog} -> {got!r}, the expansion {expansion} gives {want!r}")
+        except Exception as e:
+            problems.append(f"{prog} raised {type(e).__name__}: {e}")
+    # operands of rank 2: folds and scans work along the outer axis (members are rows)
+    for prog, want in (('+\\[[1 2] [3 4]]', [[1, 2], [4, 6]]), ('*\\[[1 2] [3 4]]', [[1, 2], [3, 8]]), ('+/[[1 2] [3 4]]', [4, 6]), ('|/[[1 5] [3 2]]', [3, 5]),
+                       ('&/[[1 5] [3 2]]', [1, 2]), ('a::[[1 5] [3 2]];|/a', [3, 5]), ('a::[[1 2] [3 4]];+\\a', [[1, 2], [4, 6]]), ('a::[[1 2] [3 4]];+/a', [4, 6])):
+        try:
+            got = k(prog)
+            g = got.tolist() if hasattr(got, 'tolist') else got
+            if g != want:
+                problems.append(f"{prog} -> {g!r}, member-wise expansion gives {want!r}")
+        except Exception as e:
+            problems.append(f"{prog} raised {type(e).__name__}: {e}")
     if problems:
         return dict(confirmed=True, detail='; '.join(problems[:3]))
     return dict(confirmed=False, detail='adverb expressions equal their expansions on the scripted operands')
